@@ -116,8 +116,8 @@ type rule struct {
 var gnoRules = []rule{
 	{regexp.MustCompile(`^runtime error: division by zero`), "divzero"},
 	{regexp.MustCompile(`^runtime error: negative shift amount`), "negshift"},
-	{regexp.MustCompile(`^runtime error: (index out of range|slice index out of bounds|nil slice index \(out of bounds\))`), "index"},
-	{regexp.MustCompile(`^runtime error: (slice bounds out of range|invalid slice index|nil slice index out of range)`), "slice"},
+	{regexp.MustCompile(`^runtime error: (index out of range|slice index out of bounds|nil slice index \(out of bounds\))`), "bounds"},
+	{regexp.MustCompile(`^runtime error: (slice bounds out of range|invalid slice index|nil slice index out of range)`), "bounds"},
 	{regexp.MustCompile(`^runtime error: (nil pointer dereference|call of nil function)`), "nilderef"},
 	{regexp.MustCompile(`^runtime error: uninitialized map index`), "nilmap"},
 	{regexp.MustCompile(`^runtime error: makeslice: (len|cap) out of range`), "makeslice"},
@@ -129,8 +129,8 @@ var gnoRules = []rule{
 var goRules = []rule{
 	{regexp.MustCompile(`^runtime error: integer divide by zero`), "divzero"},
 	{regexp.MustCompile(`^runtime error: negative shift amount`), "negshift"},
-	{regexp.MustCompile(`^runtime error: index out of range`), "index"},
-	{regexp.MustCompile(`^runtime error: slice bounds out of range`), "slice"},
+	{regexp.MustCompile(`^runtime error: index out of range`), "bounds"},
+	{regexp.MustCompile(`^runtime error: slice bounds out of range`), "bounds"},
 	{regexp.MustCompile(`^runtime error: invalid memory address or nil pointer dereference`), "nilderef"},
 	{regexp.MustCompile(`^assignment to entry in nil map`), "nilmap"},
 	{regexp.MustCompile(`^runtime error: makeslice: (len|cap) out of range`), "makeslice"},
@@ -184,42 +184,33 @@ func (g *GnoVM) reset() {
 	g.n = 0
 }
 
-// Fault describes a Go-level panic that escaped the VM and is not one of the
-// sanctioned outcome classes (C11's `internal-fault`).
-type Fault struct {
-	Phase string
-	Value string
-}
-
-func classifyEscape(v any) (status string, fault bool) {
+// classifyEscape maps a Go panic that left the VM to an outcome class.
+// Sanctioned (C11): a Gno panic, out of gas, the allocation limit, and — while
+// loading — a preprocess / type error.  Everything else is a fault of the
+// interpreter: a Go run-time error anywhere, or any other Go panic once the
+// program has been preprocessed and is running.
+func classifyEscape(v any, phase string) (status string) {
 	switch e := v.(type) {
-	case gno.UnhandledPanicError:
-		return "gnopanic", false
-	case *gno.UnhandledPanicError:
-		return "gnopanic", false
+	case gno.UnhandledPanicError, *gno.UnhandledPanicError:
+		return "panic:escaped"
 	case stypes.OutOfGasError:
-		return "limit:gas", false
+		return "limit:gas"
 	case *gno.PreprocessError:
-		return "err:preprocess", false
-	case error:
-		msg := e.Error()
-		if strings.Contains(msg, "allocation limit exceeded") {
-			return "limit:alloc", false
+		if _, ok := e.Unwrap().(runtime.Error); ok {
+			return "crash:runtime-error"
 		}
-		if _, ok := v.(runtime.Error); ok {
-			return "crash:runtime-error", true
-		}
-		return "err:other", false
-	case string:
-		if strings.Contains(e, "allocation limit exceeded") {
-			return "limit:alloc", false
-		}
-		return "err:other", false
+		return "err:preprocess"
 	}
-	if s := fmt.Sprint(v); strings.Contains(s, "allocation limit exceeded") {
-		return "limit:alloc", false
+	if strings.Contains(fmt.Sprint(v), "allocation limit exceeded") {
+		return "limit:alloc"
 	}
-	return "err:other", false
+	if _, ok := v.(runtime.Error); ok {
+		return "crash:runtime-error"
+	}
+	if phase == "run" {
+		return "crash:vm-panic"
+	}
+	return "err:load"
 }
 
 // Run loads the unit as package main and evaluates <prefix>run().
@@ -248,11 +239,7 @@ func (g *GnoVM) Run(u Unit) (oc Outcome, detail string) {
 	phase := "load"
 	defer func() {
 		if v := recover(); v != nil {
-			st, _ := classifyEscape(v)
-			if st == "gnopanic" {
-				// a Gno panic that the runner did not recover (only possible while loading)
-				st = "panic:escaped"
-			}
+			st := classifyEscape(v, phase)
 			oc = Outcome{Status: st, Output: append([]byte(nil), g.out.Bytes()...)}
 			detail = phase + ": " + firstLine(fmt.Sprint(v))
 		}
